@@ -383,6 +383,37 @@ pub fn check_c15(ctx: &mut Ctx, transport: bool, fmt: u8, fci: &[u8]) {
             );
         }
     }
+    // "... and then: a NACK list yields, per 32-bit word ...": control information that is well-formed for the FCI
+    // type whose home (kind, format) the packet has - a whole number of entries and at least one, RPSI padding bits
+    // that fit into the bit string, an empty PLI body - is decoded, not refused
+    {
+        let n = fci.len();
+        let well_formed = [
+            n >= 4 && n % 4 == 0,
+            n == 0,
+            n >= 4 && n % 4 == 0,
+            n >= 4 && n % 4 == 0 && (fci[0] as usize) <= 8 * (n - 2),
+            n >= 8 && n % 8 == 0,
+        ];
+        let errs = [o.nack.as_ref().err(), o.pli.as_ref().err(), o.sli.as_ref().err(), o.rpsi.as_ref().err(), o.fir.as_ref().err()];
+        for f in 0..5 {
+            let (ht, hf) = home(f);
+            if ht == transport && hf == (fmt & 0x1f) && well_formed[f] {
+                if let Some(e) = errs[f] {
+                    ctx.violate(
+                        "well-formed-decodes",
+                        F_NAMES[f],
+                        crate::drive::variant_name(e),
+                        case,
+                        format!("parse_fci::<{}>() decodes the {} bytes of well-formed control information", F_NAMES[f], n),
+                        format!("Err({e}) on FCI {}", hex(&fci[..n.min(40)])),
+                    );
+                } else {
+                    ctx.class_dyn(format!("c15:well-formed-decoded:{}", F_NAMES[f]));
+                }
+            }
+        }
+    }
     let mut bad = |ctx: &mut Ctx, f: &str, feature: &str, exp: String, got: String| {
         ctx.violate("decoding", f, feature, || bytes_case("c15", b), exp, format!("{got} on FCI {}", hex(&fci[..fci.len().min(40)])));
     };
@@ -788,8 +819,8 @@ pub fn check_c13(ctx: &mut Ctx, base: &[u8], pad: u8) {
                     name,
                     feature,
                     case,
-                    format!("content accessors as on the unpadded packet: {}", &ua[..ua.len().min(400)]),
-                    format!("with {pad} bytes of padding: {}", &pa[..pa.len().min(400)]),
+                    format!("content accessors as on the unpadded packet: {}", crate::json::trunc(&ua, 400)),
+                    format!("with {pad} bytes of padding: {}", crate::json::trunc(&pa, 400)),
                 );
             }
             ctx.class_dyn(format!("c13:{name}:pad={}", match pad { 4 => "4", 252 => "252", _ => "other" }));
